@@ -10,6 +10,11 @@ use crate::wrap::CutPlan;
 pub fn solver_arm_opts(arm: &str) -> Option<ArmOpts> {
     let d = ArmOpts::default();
     Some(match arm {
+        "seq-large" => ArmOpts { perturb: true, large: true, ..d },
+        "par-large" => ArmOpts { parallel: true, perturb: true, large: true, ..d },
+        "seq-large-cache" => ArmOpts { large: true, force_cache: Some(true), ..d },
+        "par-large-cache" => ArmOpts { parallel: true, large: true, force_cache: Some(true), ..d },
+        "par-large-cutoff" => ArmOpts { parallel: true, large: true, cut: true, ..d },
         "seq-free" => ArmOpts { perturb: true, knapsack_quarters: 1, ..d },
         "par-free" => ArmOpts { parallel: true, perturb: true, knapsack_quarters: 1, ..d },
         "par-free-wide" => ArmOpts { parallel: true, perturb: true, max_threads: 8, ..d },
